@@ -429,6 +429,7 @@ impl<'a, H: Header> TagIter<'a, H> {
 
 // `impl Iterator for TagIter` (R4: hosted as an inherent method, Self::Item written out)
 //@extractall multiboot2-common/src/iter.rs :: impl<'a, H: Header + 'a> Iterator for TagIter<'a, H>
+//@  onlyfns next
 //@  type Item: skip
 //@  fn *: nocontract
 //@  fn *: rules R2
@@ -547,3 +548,4 @@ pub mod multiboot2_common {
 pub mod multiboot2 {
     pub use super::*;
 }
+//@include find_glue.rs
